@@ -165,4 +165,11 @@ def malformed(ref):
         if len(segs) > 2:
             out.append("/".join(segs[:1] + ["**"] + segs[2:3] + ["**"]))
         out += ["zz/" + s + "?project=*", "zz/*?project=*", s + "/zz/zz/zz?project=*"]
+        # filters with a pair that is no 'key=value' (a typo, an empty pair): such a pair is dropped, the rest applies
+        k0 = ref.keys(typ)[0]
+        star = "/".join(segs[:-1] + ["*"]) if len(segs) > 1 else s
+        for q in ("whatever", k0 + "=" + segs[0] + "&x", "yes?yes", k0 + "=" + segs[0] + "&&" + k0 + "=" + segs[0], "=", "=x", "x="):
+            out += [s + "?" + q, star + "?" + q]
+        if len(segs) > 2:
+            out.append("/".join(segs[:2]) + "/**?whatever")
     return out
